@@ -3057,33 +3057,35 @@ theorem fibGet_sortBy (fib : Fib) (rs : List FibReq) (t : Nat) (q : Pfx) :
 
 -- tracking requests
 
--- tracking requests: a stable sort by address keeps, for every address, the order sent
+-- tracking requests
 
-/-- the requests (register = `true`) for address `a`, in order -/
-def proj (a : Addr) (log : List (Bool × Addr)) : List Bool := (log.filter (fun r => r.2 == a)).map (·.1)
+theorem countAddr_perm {a : Addr} {l l' : List Addr} (h : l.Perm l') : countAddr a l = countAddr a l' :=
+  (h.filter _).length_eq
 
-/-- replay of the requests for one address on its count -/
-def run1 : Nat → List Bool → Option Nat
-  | n, [] => some n
-  | n, true :: t => run1 (n + 1) t
-  | n, false :: t => if n = 0 then none else run1 (n - 1) t
+theorem refReplay_regs {refs : Refs} (l : List Addr) :
+    ∃ refs', refReplay refs (l.map (fun a => (true, a))) = some refs' ∧
+      ∀ a, refGet refs' a = refGet refs a + countAddr a l := by
+  induction l generalizing refs with
+  | nil => exact ⟨refs, by simp [refReplay], by simp [countAddr]⟩
+  | cons x l ih =>
+    obtain ⟨refs', e, g⟩ := @ih (refSet refs x (refGet refs x + 1))
+    refine ⟨refs', by simpa [refReplay] using e, ?_⟩
+    intro a
+    rw [g a, refGet_refSet]
+    by_cases ha : a = x
+    · subst ha; simp [countAddr]; omega
+    · have : ¬ x = a := fun e => ha e.symm
+      simp [ha, countAddr, this]
 
-theorem proj_cons (a : Addr) (k : Bool) (b : Addr) (rest : List (Bool × Addr)) :
-    proj a ((k, b) :: rest) = if b = a then k :: proj a rest else proj a rest := by
-  unfold proj
-  by_cases h : b = a
-  · simp [filter_cons, h]
-  · simp [filter_cons, h]
-
-theorem refReplay_run1 {log : List (Bool × Addr)} :
+/-- counting form of a successful replay -/
+theorem refReplay_count {log : List (Bool × Addr)} :
     ∀ {refs refs' : Refs}, refReplay refs log = some refs' →
-      ∀ a, run1 (refGet refs a) (proj a log) = some (refGet refs' a) := by
+      ∀ a, refGet refs' a + countAddr a (unregsOf log) = refGet refs a + countAddr a (regsOf log) := by
   induction log with
-  | nil => intro refs refs' h a; simp [refReplay] at h; simp [proj, run1, h]
+  | nil => intro refs refs' h a; simp [refReplay] at h; simp [h, unregsOf, regsOf]
   | cons x log ih =>
     intro refs refs' h a
     obtain ⟨k, b⟩ := x
-    rw [proj_cons]
     cases k
     · simp only [refReplay] at h
       split at h
@@ -3091,84 +3093,31 @@ theorem refReplay_run1 {log : List (Bool × Addr)} :
       · rename_i hne
         have := ih h a
         rw [refGet_refSet] at this
+        simp only [unregsOf, regsOf]
         by_cases hab : a = b
-        · subst hab; simp only [if_true] at this ⊢; simp only [run1, hne, if_false]; exact this
+        · subst hab; simp [countAddr] at this ⊢; omega
         · have hba : ¬ b = a := fun e => hab e.symm
-          simp only [hab, hba, if_false] at this ⊢; exact this
+          simp [hab, countAddr, hba] at this ⊢; omega
     · simp only [refReplay] at h
       have := ih h a
       rw [refGet_refSet] at this
+      simp only [unregsOf, regsOf]
       by_cases hab : a = b
-      · subst hab; simp only [if_true] at this ⊢; simp only [run1]; exact this
+      · subst hab; simp [countAddr] at this ⊢; omega
       · have hba : ¬ b = a := fun e => hab e.symm
-        simp only [hab, hba, if_false] at this ⊢; exact this
-
-theorem refReplay_of_run1 {log : List (Bool × Addr)} :
-    ∀ {refs : Refs}, (∀ a, (run1 (refGet refs a) (proj a log)).isSome = true) →
-      ∃ refs', refReplay refs log = some refs' := by
-  induction log with
-  | nil => intro refs _; exact ⟨refs, rfl⟩
-  | cons x log ih =>
-    intro refs h
-    obtain ⟨k, b⟩ := x
-    cases k
-    · have hb := h b
-      rw [proj_cons] at hb
-      simp only [if_true, run1] at hb
-      have hne : refGet refs b ≠ 0 := by
-        intro e; simp [e] at hb
-      simp only [refReplay, hne, if_false]
-      apply ih
-      intro a
-      have ha := h a
-      rw [proj_cons] at ha
-      rw [refGet_refSet]
-      by_cases hab : a = b
-      · subst hab; simp only [if_true, run1, hne, if_false] at ha ⊢; exact ha
-      · have hba : ¬ b = a := fun e => hab e.symm
-        simp only [hab, hba, if_false] at ha ⊢; exact ha
-    · simp only [refReplay]
-      apply ih
-      intro a
-      have ha := h a
-      rw [proj_cons] at ha
-      rw [refGet_refSet]
-      by_cases hab : a = b
-      · subst hab; simp only [if_true, run1] at ha ⊢; exact ha
-      · have hba : ¬ b = a := fun e => hab e.symm
-        simp only [hab, hba, if_false] at ha ⊢; exact ha
-
-theorem proj_canon (a : Addr) (log : List (Bool × Addr)) : proj a (canonNht log) = proj a log := by
-  unfold proj canonNht
-  have htot : ∀ x y : Bool × Addr, nhtLe x y = false → nhtLe y x = true := by
-    intro x y h
-    have h' : ¬ x.2 ≤ y.2 := by simpa [nhtLe] using h
-    have : y.2 ≤ x.2 := Nat.le_of_lt (Nat.lt_of_not_le h')
-    simpa [nhtLe] using this
-  have htr : ∀ x y z : Bool × Addr, nhtLe x y = true → nhtLe y z = true → nhtLe x z = true := by
-    intro x y z h1 h2
-    have h1' : x.2 ≤ y.2 := by simpa [nhtLe] using h1
-    have h2' : y.2 ≤ z.2 := by simpa [nhtLe] using h2
-    have : x.2 ≤ z.2 := Nat.le_trans h1' h2'
-    simpa [nhtLe] using this
-  rw [filter_sortBy nhtLe htot htr]
-  congr 1
-  apply sortBy_of_all_le
-  intro x hx y hy
-  have hx' : x.2 = a := by simpa using (mem_filter.mp hx).2
-  have hy' : y.2 = a := by simpa using (mem_filter.mp hy).2
-  simp [nhtLe, hx', hy']
+        simp [hab, countAddr, hba] at this ⊢; omega
 
 /-- a log that replays in the order issued also replays in canonical order, to the same counts -/
 theorem refReplay_canon {log : List (Bool × Addr)} {refs refs' : Refs} (h : refReplay refs log = some refs') :
     ∃ refs'', refReplay refs (canonNht log) = some refs'' ∧ ∀ a, refGet refs'' a = refGet refs' a := by
-  have h1 := refReplay_run1 h
-  obtain ⟨refs'', e⟩ := @refReplay_of_run1 (canonNht log) refs (by intro a; rw [proj_canon, h1 a]; rfl)
-  refine ⟨refs'', e, ?_⟩
-  intro a
-  have h2 := refReplay_run1 e a
-  rw [proj_canon, h1 a] at h2
-  exact (Option.some.inj h2).symm
+  unfold canonNht
+  obtain ⟨r1, e1, g1⟩ := @refReplay_regs refs (sortBy natLe (regsOf log))
+  have hc := refReplay_count h
+  obtain ⟨r2, e2, g2⟩ := @refReplay_unregs r1 (fun a => refGet refs' a) (sortBy natLe (unregsOf log)) (by
+    intro a
+    rw [g1 a, countAddr_perm (sortBy_perm natLe _), countAddr_perm (sortBy_perm natLe (unregsOf log))]
+    have := hc a; omega)
+  exact ⟨r2, by rw [refReplay_append, e1]; exact e2, g2⟩
 
 -- destinations
 
